@@ -32,7 +32,12 @@ LEVEL_TEXT = (
     "hands to the backend exactly base ++ normalize(cwd0, arg), the location the permission was looked up for), "
     "C04_check_worker_paths_sound and the instance obligations C04_workers_use_authorised_path / C04_transfer_target_today on the "
     "regenerated Gen/Resolve.v (the workers use the handler's real_path, bound once by get_paths(connection, rest) before the task is "
-    "created; they never resolve again); C04_late_resolution_breaks shows the premise is needed. The session-level statement (a "
+    "created; they never resolve again); C04_late_resolution_breaks shows the premise is needed. Histories with CWD/CDUP and "
+    "re-logins (also completed by USER alone) between requests: C04_requests_use_current_table (every request of every history is "
+    "decided by the nearest entry, in the table of the user logged in now, of normalize(cwd now, arg)); closed checks on the "
+    "regenerated source: C04_lookup_asks_current_user (the wrapper asks connection.user on every call, no memo) and "
+    "C04_check_and_use_not_separated (PathPermissions is the innermost decorator and every body starts with its own get_paths, so "
+    "no suspension separates decision and use). The session-level statement (a "
     "denied request queues exactly one 550 and leaves tree and cwd unchanged) is validated at wire level only here (also with "
     "commands between 150 and the data connection) and is left to the Session model."
 )
@@ -176,7 +181,10 @@ def run_decorator(loop, ents, fl, cwd, s):
 
     names = [["readable", "writable"][f] for f in fl]
     wrapped = aserver.PathPermissions(*names)(body)
-    res = loop.run_until_complete(wrapped(FakeServer, conn, s))
+    try:
+        res = loop.run_until_complete(wrapped(FakeServer, conn, s))
+    except Exception as e:  # noqa: BLE001 - the (mutated) wrapper raised: an observation, the run goes on
+        return f"raised {type(e).__name__}: {e}", replies, None
     if called:
         im = 0
     elif replies:
@@ -206,10 +214,17 @@ def stream_decorator(ctx, xcheck):
         meta.append((t, ents, fl, cwd, s))
     out = ctx.model(cases)
     by_normal = {}
+    n_raised = 0
     for (t, ents, fl, cwd, s), mo in zip(meta, out):
         ctx.case(("deco", tuple(t), tuple(fl), cwd, s))
         im, replies, res = run_decorator(loop, ents, fl, cwd, s)
         ctx.traces_impl += 1
+        if isinstance(im, str):
+            # the wrapper raised on a Connection built like the repository's own tests build it: recorded, not fatal
+            n_raised += 1
+            if n_raised <= 3:
+                ctx.disagree("PathPermissions", [t, fl, cwd, s], mo, im)
+            continue
         if mo[0] != 0 or mo[1][0] != im:
             ctx.disagree("PathPermissions", [t, fl, cwd, s], mo, im)
         # oracle: decision by the first listed flag of the nearest entry of the NORMAL FORM
@@ -227,6 +242,8 @@ def stream_decorator(ctx, xcheck):
             if by_normal.setdefault(key, im) != im:
                 ctx.violation("two spellings of one location got different decisions", {"key": "c04-alias", "table": ents, "flags": fl, "cwd": cwd, "path": s})
     ctx.count("decorator_cases", n)
+    if n_raised:
+        ctx.count("decorator_cases_wrapper_raised", n_raised)
     xcheck.extend((42, a, mo) for (_, a), mo in list(zip(cases, out))[:30])
     loop.close()
 
@@ -601,6 +618,299 @@ def il_report(ctx, what, payload, per_key=2):
         ctx.count("further_violations_" + payload["key"])
 
 
+# ---------------------------------------------------------------- wire level: re-logins between requests
+# One control connection, several logins (with password, password-less = USER alone answers 230, anonymous); the same
+# requests before and after each re-login.  Every request is decided by the table of the user logged in NOW.
+SL_REQUESTS = [("CWD", "/priv"), ("CWD", "/pub"), ("CWD", "/rw/d"), ("CWD", "/pub/sub"), ("MLST", "/priv/f"), ("MLST", "/pub/f"), ("MLST", "/rw/f"), ("MLST", "/top"),
+               ("MKD", "/new"), ("MKD", "/pub/new"), ("MKD", "/rw/new"), ("MKD", "/priv/d/new"), ("DELE", "/pub/sub/g"), ("DELE", "/priv/f"), ("DELE", "/rw/f"),
+               ("RMD", "/rw/d"), ("RMD", "/priv/d"), ("RNFR", "/pub/f"), ("RNFR", "/rw/f"), ("MLST", "f"), ("MKD", "d/n2"), ("CWD", ".."), ("CWD", "/")]
+SL_FLAG = {"CWD": 0, "MLST": 0, "MKD": 1, "RMD": 1, "DELE": 1, "RNFR": 1}
+SL_ANON_TABLE = [("/", True, False), ("/rw", False, False), ("/priv/d", True, True)]
+
+
+def sl_users(ti):
+    """(login name sent, login of the account, password or None, table)"""
+    n = len(WIRE_TABLES)
+    return [("u", "u", "p", WIRE_TABLES[ti]), ("v", "v", "q", WIRE_TABLES[(ti + 1) % n]), ("guest", "guest", None, WIRE_TABLES[(ti + 2) % n]),
+            ("whoever", None, None, SL_ANON_TABLE)]
+
+
+def run_session(ti, events):
+    """events: ("LOGIN", k) | (verb, arg) on one control connection -> per event dict(codes, lines, tree_changed, pwd)"""
+    obs = []
+
+    async def main(net):
+        us = sl_users(ti)
+        users = [aioftp.User(login, pw, base_path="/", home_path="/", permissions=[aioftp.Permission(x, readable=r, writable=w) for x, r, w in tab])
+                 for _, login, pw, tab in us]
+        server = aioftp.Server(users, path_io_factory=aioftp.MemoryPathIO)
+        server.path_io_factory.state = ftpsim.mem_state(TREE)
+        await server.start("127.0.0.1", ftpsim.PORT)
+        raw = await simnet.Raw.connect(net, server.server_port)
+        await raw.drain_replies()
+        for ev in events:
+            ob = {}
+            if ev[0] == "LOGIN":
+                name, _, pw, _ = us[ev[1]]
+                lines = await raw.send("USER " + name)
+                if pw is not None and simnet.final_codes(lines) == ["331"]:
+                    lines = await raw.send("PASS " + pw)
+                ob["codes"], ob["lines"] = simnet.final_codes(lines), lines
+            else:
+                before = ftpsim.final_tree(server, "memory")
+                lines = await raw.send(f"{ev[0]} {ev[1]}")
+                ob["codes"], ob["lines"] = simnet.final_codes(lines), lines
+                ob["tree_changed"] = ftpsim.final_tree(server, "memory") != before
+                pw_lines = await raw.send("PWD")
+                ob["pwd"] = pw_lines[-1][4:].strip().strip('"') if simnet.final_codes(pw_lines) == ["257"] else None
+            obs.append(ob)
+            if raw.eof:
+                break
+        await server.close()
+
+    try:
+        simnet.run(main)
+    except Exception as e:  # noqa: BLE001 - observation
+        obs.append({"error": repr(e)})
+    return obs
+
+
+def session_oracle(ti, events, obs):
+    """-> (problems [(step, kind, detail)], model history)"""
+    us = sl_users(ti)
+    cur, cwd = None, "/"
+    problems, mh = [], []
+    for k, (ev, ob) in enumerate(zip(events, obs)):
+        if "error" in ob:
+            problems.append((k, "driver-error", ob["error"]))
+            break
+        if ev[0] == "LOGIN":
+            if ob["codes"] == ["230"]:
+                cur, cwd = ev[1], "/"
+                mh.append([0, [2, "/", "/", [[i, p, r, w] for i, (p, r, w) in enumerate(us[cur][3])]]])
+            else:
+                problems.append((k, "login-failed", f"login as {us[ev[1]][0]} answered {ob['codes']}"))
+                break
+            continue
+        if cur is None:
+            continue
+        verb, arg = ev
+        table = us[cur][3]
+        norm = py_normalize(cwd, arg)
+        idx = py_nearest([entry_parts(p) for p, _, _ in table], norm)
+        allowed = True if idx < 0 else bool(table[idx][1 + SL_FLAG[verb]])
+        who = us[cur][0]
+        mh.append([1, [SL_FLAG[verb]], arg])
+        ob["model_index"] = sum(1 for e in mh if e[0] == 1) - 1
+        if not allowed:
+            if ob["codes"] != ["550"]:
+                problems.append((k, f"deny-{verb.lower()}", f"{verb} {arg!r} as {who} (cwd {cwd}) is governed by entry {idx} {table[idx]} of {who}'s table (not allowed) but answered {ob['codes']}"))
+            if ob.get("tree_changed") or ob.get("pwd") != cwd:
+                problems.append((k, f"deny-{verb.lower()}", f"refused {verb} {arg!r} as {who}: tree changed={ob.get('tree_changed')}, working directory {ob.get('pwd')!r} (was {cwd!r})"))
+        elif ob["codes"] == ["550"] and "permission denied" in " ".join(ob["lines"]):
+            problems.append((k, f"allow-{verb.lower()}", f"{verb} {arg!r} as {who} (cwd {cwd}) is allowed by {who}'s table (entry {idx}) but answered 550 permission denied"))
+        if verb == "CWD" and ob["codes"] == ["250"]:
+            cwd = "/" + "/".join(norm)
+            mh.append([0, [0, arg, True]])
+    return problems, mh
+
+
+def gen_session(rng):
+    ev = []
+    order = rng.sample(range(4), rng.randint(2, 4))
+    if rng.random() < 0.7 and not any(k >= 2 for k in order[1:]):
+        order[-1] = rng.choice([2, 3])  # end with a login that needs no PASS
+    block = rng.sample(SL_REQUESTS, rng.randint(3, 6))
+    for j, k in enumerate(order):
+        ev.append(("LOGIN", k))
+        ev.extend(block)
+        if rng.random() < 0.5:
+            ev.extend(rng.sample(SL_REQUESTS, 2))
+    return ev
+
+
+def stream_sessions(ctx, xcheck):
+    rng = ctx.rng
+    n = 600 if ctx.tier == "thorough" else 90
+    cases = [(i % len(WIRE_TABLES), gen_session(rng)) for i in range(n)]
+    margs, mkeep = [], []
+    n_req = n_login = n_nopass = 0
+    for ti, events in cases:
+        ctx.case(("sessions", ti, repr(events)))
+        ctx.traces_impl += 1
+        obs = run_session(ti, events)
+        problems, mh = session_oracle(ti, events, obs)
+        n_req += sum(1 for e in events if e[0] != "LOGIN")
+        n_login += sum(1 for e in events if e[0] == "LOGIN")
+        n_nopass += sum(1 for e in events[1:] if e[0] == "LOGIN" and e[1] >= 2)
+        for k, kind, detail in problems[:2]:
+            il_report(ctx, f"session with re-logins, step {k}: {detail}", {"key": f"c04-session-{kind}", "sessions": True, "table": ti, "events": [list(e) for e in events], "step": k})
+        if mh and mh[0][0] == 0 and mh[0][1][0] == 2:
+            first = mh[0][1]
+            margs.append((44, [first[3], "/", "/", mh[1:]]))
+            mkeep.append(((ti, events), obs))
+    out = ctx.model(margs)
+    for (case, obs), mo in zip(mkeep, out):
+        if mo[0] != 0:
+            ctx.disagree("sessions-model", case, mo, "model refused")
+            continue
+        for ob in obs:
+            mi = ob.get("model_index")
+            if mi is None or mi >= len(mo[1]) or not mo[1][mi]:
+                continue
+            decision = mo[1][mi][0]
+            denied_pd = ob["codes"] == ["550"] and "permission denied" in " ".join(ob["lines"])
+            if (decision == 550 and ob["codes"] != ["550"]) or (decision == 0 and denied_pd):
+                ctx.disagree("sessions-decision", case, mo[1][mi], ob["codes"])
+    ctx.count("session_histories", n)
+    ctx.count("session_requests", n_req)
+    ctx.count("session_logins", n_login)
+    ctx.count("session_relogins_without_pass", n_nopass)
+    xcheck.extend((fn, a, mo) for (fn, a), mo in list(zip(margs, out))[:6])
+    ctx.sample({"stream": "sessions", "events": [list(e) for e in cases[0][1][:10]]})
+
+
+# ---------------------------------------------------------------- wire level: pipelined pairs, backend that really suspends
+# "<modifying command> <relative arg>\r\nCWD <elsewhere>\r\n" in ONE segment, with stat-like backend calls that take
+# (virtual) time below a prefix: the dispatcher starts the CWD while the first command is suspended in its checks.
+# Whatever the interleaving, the tree may only change at locations whose nearest entry is writable, and the working
+# directory may only move to a readable one.
+PIPE_CASES = [
+    ("/rw", "DELE", "f", ("CWD", "/pub")), ("/rw", "DELE", "f", ("CWD", "/priv")), ("/rw", "MKD", "new", ("CWD", "/pub")), ("/rw", "MKD", "new", ("CWD", "/pub/sub")),
+    ("/rw", "RMD", "d", ("CWD", "/priv")), ("/rw/d", "DELE", "../f", ("CWD", "/pub/sub")), ("/pub", "DELE", "f", ("CWD", "/rw")), ("/pub", "MKD", "new", ("CWD", "/rw")),
+    ("/pub/sub", "DELE", "g", ("CDUP", "")), ("/rw/d", "MKD", "new", ("CDUP", "")), ("/rw", "RNFR", "f", ("CWD", "/pub")), ("/pub", "DELE", "f", ("CWD", "/priv")),
+    ("/rw", "DELE", "f", ("CWD", "/")), ("/", "DELE", "top", ("CWD", "/rw")), ("/rw", "MKD", "d/new", ("CWD", "/priv")), ("/priv", "DELE", "f", ("CWD", "/rw")),
+]
+PIPE_SLOW = ["cwd0", "/", None]
+
+
+def slow_factory(log, slow_prefix, delay):
+    class Slow(aioftp.MemoryPathIO):
+        pass
+
+    def is_slow(path):
+        if slow_prefix is None:
+            return False
+        s = str(path)
+        return slow_prefix == "/" or s == slow_prefix or s.startswith(slow_prefix + "/")
+
+    def wrap(name, stat_like):
+        orig = getattr(aioftp.MemoryPathIO, name)
+
+        async def f(self, *a, **k):
+            log.append((name, [str(x) for x in a if isinstance(x, pathlib.PurePath)]))
+            if stat_like and a and is_slow(a[0]):
+                await asyncio.sleep(delay)
+            return await orig(self, *a, **k)
+
+        return f
+
+    for n in ("exists", "is_dir", "is_file", "stat"):
+        setattr(Slow, n, wrap(n, True))
+    for n in ("mkdir", "rmdir", "unlink", "rename", "_open"):
+        setattr(Slow, n, wrap(n, False))
+    return Slow
+
+
+def tree_diff(a, b, prefix=()):
+    """paths (tuples of names) at which two trees differ (topmost differing nodes)"""
+    if isinstance(a, dict) and isinstance(b, dict):
+        out = []
+        for k in sorted(set(a) | set(b)):
+            if k not in a or k not in b:
+                out.append(prefix + (k,))
+            else:
+                out += tree_diff(a[k], b[k], prefix + (k,))
+        return out
+    return [] if a == b else [prefix]
+
+
+def run_pipelined(ti, cwd0, verb, arg, second, slow, follow=None):
+    log = []
+    ob = {}
+
+    async def main(net):
+        table = WIRE_TABLES[ti]
+        users = [aioftp.User("u", "p", base_path="/", home_path="/", permissions=[aioftp.Permission(x, readable=r, writable=w) for x, r, w in table])]
+        server = aioftp.Server(users, path_io_factory=aioftp.MemoryPathIO)
+        server.path_io_factory.state = ftpsim.mem_state(TREE)
+        server.path_io_factory.factory = slow_factory(log, cwd0 if slow == "cwd0" else slow, 0.3)
+        await server.start("127.0.0.1", ftpsim.PORT)
+        raw = await simnet.Raw.connect(net, server.server_port)
+
+        async def cmd(data):
+            raw.writer.write(data.encode() if isinstance(data, str) else data)
+            await asyncio.sleep(6)
+            return simnet.final_codes(await raw.drain_replies())
+
+        await raw.drain_replies()
+        await cmd("USER u\r\n")
+        ob["login"] = await cmd("PASS p\r\n")
+        ob["cwd0"] = await cmd(f"CWD {cwd0}\r\n")
+        mark = len(log)
+        ob["codes"] = await cmd(f"{verb} {arg}\r\n{second[0]} {second[1]}".rstrip() + "\r\n")  # ONE segment, two lines
+        if follow:
+            ob["follow"] = await cmd(follow + "\r\n")
+        ob["calls"] = log[mark:]
+        pw = raw.writer.write(b"PWD\r\n")
+        await asyncio.sleep(2)
+        lines = await raw.drain_replies()
+        ob["pwd"] = lines[-1][4:].strip().strip('"') if simnet.final_codes(lines) == ["257"] else None
+        ob["tree"] = ftpsim.final_tree(server, "memory")
+        await server.close()
+
+    try:
+        simnet.run(main)
+    except Exception as e:  # noqa: BLE001 - observation
+        ob["error"] = repr(e)
+    return ob
+
+
+def pipelined_oracle(ti, cwd0, verb, arg, second, ob):
+    if "error" in ob:
+        return [("driver-error", ob["error"])]
+    if ob.get("login") != ["230"] or ob.get("cwd0") != ["250"]:
+        return []
+    table = WIRE_TABLES[ti]
+    ents = [entry_parts(p) for p, _, _ in table]
+
+    def flag(parts, fi):
+        idx = py_nearest(ents, list(parts))
+        return True if idx < 0 else bool(table[idx][1 + fi])
+
+    bad = []
+    for path in tree_diff(ftpsim.canon_tree(TREE), ob["tree"]):
+        if not flag(path, 1):
+            bad.append(("modified-unwritable", f"'{verb} {arg}' + '{second[0]} {second[1]}' pipelined from {cwd0}: the tree changed at /{'/'.join(path)}, whose entry "
+                        f"is not writable (replies {ob['codes']}; mutating backend calls {[c for c in ob['calls'] if c[0] in ('mkdir', 'rmdir', 'unlink', 'rename')]})"))
+    if ob.get("pwd") is not None and ob["pwd"] != cwd0:
+        if not flag([x for x in ob["pwd"].split("/") if x], 0):
+            bad.append(("cwd-unreadable", f"the working directory moved to {ob['pwd']!r}, whose entry is not readable"))
+    return bad
+
+
+def stream_pipelined(ctx):
+    cases = []
+    for ti in range(len(WIRE_TABLES)):
+        for ci, (cwd0, verb, arg, second) in enumerate(PIPE_CASES):
+            for si, slow in enumerate(PIPE_SLOW):
+                if ctx.tier == "thorough" or (ti + ci + si) % 3 == 0 or (slow == "cwd0" and (ti + ci) % 2 == 0):
+                    cases.append((ti, cwd0, verb, arg, second, slow))
+    n_changed = 0
+    for ti, cwd0, verb, arg, second, slow in cases:
+        ctx.case(("pipelined", ti, cwd0, verb, arg, second, slow))
+        ctx.traces_impl += 1
+        follow = "RNTO moved" if verb == "RNFR" else None
+        ob = run_pipelined(ti, cwd0, verb, arg, second, slow, follow)
+        n_changed += "tree" in ob and ob["tree"] != ftpsim.canon_tree(TREE)
+        for kind, detail in pipelined_oracle(ti, cwd0, verb, arg, second, ob)[:1]:
+            il_report(ctx, detail, {"key": f"c04-pipelined-{verb.lower()}-{kind}", "pipelined": True, "table": ti, "cwd": cwd0, "verb": verb, "arg": arg,
+                                    "second": list(second), "slow": slow, "follow": follow})
+    ctx.count("pipelined_sessions", len(cases))
+    ctx.count("pipelined_sessions_tree_changed", n_changed)
+    ctx.sample({"stream": "pipelined", "segment": "DELE f\r\nCWD /pub\r\n", "cwd": "/rw", "slow_prefix": "/rw"})
+
+
 def stream_wire(ctx):
     rng = ctx.rng
     total = 0
@@ -624,13 +934,19 @@ def correspondence(ctx):
         "USER nobody, CWD+CDUP, PWD, re-login+CWD, CWD+re-login} placed between the 150 reply and the arrival of the data "
         "connection (quick: a third of the product, every triple under one table; thorough: all 4050); the object written / "
         "read / listed must be the one the lookup was made on (tree, bytes, names, recorded backend path), a denied request "
-        "must be 550, leave the tree unchanged and send nothing. The "
+        "must be 550, leave the tree unchanged and send nothing; (sessions) one control connection, 2-4 logins among 4 accounts "
+        "with different tables (two need no PASS: password-less, anonymous), the same block of requests after every login, decided "
+        "by the current user's table; (pipelined) '<DELE|MKD|RMD|RNFR> rel' and 'CWD x|CDUP' in ONE segment on a backend whose "
+        "stat-like calls take virtual time below a prefix, 16 cases x 5 tables x 3 delay settings: the tree may only change where "
+        "the nearest entry is writable, the cwd only move to a readable directory. The "
         "independent longest-prefix oracle runs on every real output. Non-trivial = distinct input."
     )
     xcheck = []
     stream_lookup(ctx, xcheck)
     stream_decorator(ctx, xcheck)
     stream_interleave(ctx, xcheck)
+    stream_sessions(ctx, xcheck)
+    stream_pipelined(ctx)
     stream_wire(ctx)
     ok, out = core.vm_crosscheck(EXTRACT, xcheck[:100])
     ctx.extra["vm_compute_crosscheck"] = {"cases": len(xcheck[:100]), "agree": ok}
@@ -647,6 +963,8 @@ def search(ctx):
     try:
         ctx.tier = "thorough"
         stream_interleave(ctx, [])
+        stream_sessions(ctx, [])
+        stream_pipelined(ctx)
         stream_wire(ctx)
     except Exception as e:
         ctx.notes.append(f"search aborted: {e!r}")
@@ -657,6 +975,24 @@ def search(ctx):
 def replay(ctx, data):
     r = data.get("replay", {})
     key = r.get("key", "")
+    if r.get("sessions"):
+        events = [tuple(e) for e in r["events"]]
+        obs = run_session(r["table"], events)
+        for ev, ob in zip(events, obs):
+            print(ev, "->", ob.get("codes"), "tree changed" if ob.get("tree_changed") else "", ob.get("pwd"))
+        problems, _ = session_oracle(r["table"], events, obs)
+        for k, kind, detail in problems:
+            print("oracle: step", k, kind, detail)
+        return not problems
+    if r.get("pipelined"):
+        ob = run_pipelined(r["table"], r["cwd"], r["verb"], r["arg"], tuple(r["second"]), r["slow"], r.get("follow"))
+        print("one segment:", repr(f"{r['verb']} {r['arg']}\r\n{r['second'][0]} {r['second'][1]}\r\n"), "from", r["cwd"], "slow below", r["slow"], "->", ob.get("codes"),
+              "| PWD", ob.get("pwd"))
+        print("backend calls:", [c for c in ob.get("calls", []) if c[0] in ("mkdir", "rmdir", "unlink", "rename")])
+        bad = pipelined_oracle(r["table"], r["cwd"], r["verb"], r["arg"], tuple(r["second"]), ob)
+        for kind, detail in bad:
+            print("oracle:", kind, detail)
+        return not bad
     if r.get("interleave"):
         between = [tuple(b) for b in r["between"]]
         ob = run_interleave(r["table"], r["verb"], r["cwd"], r["arg"], between)
